@@ -102,3 +102,9 @@ package posix
 //@   at-call os.RemoveAll {C08} [cleanup-removes-only-this-upload] requires $0 == filepath.Join(tmppath, uploadID)
 //@ func (*Posix) AbortMultipartUpload
 //@   at-call os.RemoveAll {C08} [abort-removes-only-this-upload] requires $0 == filepath.Join(objdir, uploadID)
+
+// C20: the versioning attribute of a bucket is always exactly one byte, so GetBucketVersioning's vData[0] cannot
+// fault (the read side relies on this through the trusted contract of MetadataStorer.RetrieveAttribute).
+//@ func (*Posix) PutBucketVersioning
+//@   requires {C20} [status-is-enabled-or-suspended] status == "Enabled" || status == "Suspended"
+//@   at-call meta.MetadataStorer.StoreAttribute {C20} [versioning-attribute-is-one-byte] when $3 == "versioning" :: requires len($4) == 1
